@@ -422,6 +422,24 @@ class ShardingOp(IRDLOperation):
         )
         halo_sizes = self.static_halo_sizes or self.dynamic_halo_sizes
 
+        # every dynamic marker of a static list stands for one dynamic operand
+        for what, static, dynamic in (
+            (
+                "sharded dims offsets",
+                self.static_sharded_dims_offsets,
+                self.dynamic_sharded_dims_offsets,
+            ),
+            ("halo sizes", self.static_halo_sizes, self.dynamic_halo_sizes),
+        ):
+            n_dynamic = sum(
+                1 for v in static.get_values() if v == DynamicIndexList.DYNAMIC_INDEX
+            )
+            if n_dynamic != len(dynamic):
+                raise VerifyException(
+                    f"'shard.sharding' op expected {n_dynamic} dynamic {what}, "
+                    f"got {len(dynamic)}"
+                )
+
         if dims_offsets and halo_sizes:
             raise VerifyException(
                 "'shard.sharding' op halo sizes and shard offsets are mutually exclusive"
